@@ -74,6 +74,22 @@ CLAIMED['C09'] = (
     TRUST + '; A2 exact ring back-end; callees replaced by recorders in the modular queries; the phase statement m*phase(c)+err is the composition with C12/C14 (paper algebra)',
     'bounded symbolic execution (clang IR -> C -> CBMC) + SAT/SMT portfolio', 'DESIGN.md section 4, C09')
 
+CLAIMED['C03'] = (
+    'Split so that floating point, mask cancellation and rounding never meet in one query: the sampler bound |gaussian32(m,s)-m| <= R s 2^32+1 on '
+    'real IEEE doubles; phase(encrypt(m)) = m + e exactly for LWE (arbitrary int32 keys, masks = arbitrary RNG draws, n in {1,2,3,8}) and TLWE '
+    '(polynomial and constant messages, N in {2,4}, k in {1,2}) with e the torus image of the one gaussian draw; approxPhase/modSwitch decode every '
+    'm in [0,Msize) for every |e| < 2^31/Msize - 1 (ten moduli incl. non powers of two); decrypt = approxPhase o phase; TGSW decrypt of noisy rows '
+    '(N=2); gate API both bits; trivial samples under arbitrary keys.',
+    TRUST + '; A2 exact ring back-end; M-RNG stubs; FP ops uninterpreted in the encrypt->phase queries; Gaussian tails beyond 10 sigma are outside the claim',
+    'bounded symbolic execution (clang IR -> C -> CBMC) + SAT/SMT portfolio', 'DESIGN.md section 4, C03')
+CLAIMED['C01'] = (
+    'The real code of all 14 gates (and bootsSymDecrypt) composed with the contracts of sign bootstrapping and key switching: per gate a coordinate query '
+    '(arbitrary samples: exactly which linear combination, MU and key objects reach each bootstrapping / the MUX key switch; NOT/COPY/CONSTANT exact) '
+    'and a scalar query (zero-mask samples through the same code: for every plaintext tuple and every input phase within 1/32 of +-1/8 the sign margin '
+    '1/16 (1/8 for XOR/XNOR) holds at each bootstrapping, the output decrypts to the truth table and is again admissible; MUX within 3/64).',
+    TRUST + '; A4: the contracts (bootstrapping correct with margin >= 1/16, output noise <= 1/32 resp. 1/64, key switch within 1/64) are statistical facts of C02/C04/C08 at the real parameter sets, assumed not decided; combination of the two queries uses C14 phase linearity',
+    'bounded symbolic execution of the gate code with contract stubs (clang IR -> C -> CBMC) + SAT/SMT portfolio', 'DESIGN.md section 4, C01')
+
 NOT_APPLICABLE = {
     'C02': 'statistical claim (mean/stdev/tail of the phase error of the real FFT pipeline at N=1024): a solver decides for-all/exists and the for-all version is false; its deterministic mechanisms are decided under C12, C08, C07, C19, C01',
     'C10': 'double-precision rounding error of 2048-point FFTs, three of five back-ends being hand-written AVX/FMA assembly or FFTW: bit-precise FP is out of solver reach beyond N~2 and a sound real-arithmetic over-approximation exceeds the stated 2 units',
